@@ -198,7 +198,14 @@ class App:
 
     def tree(self):
         if getattr(self, "static", False):
-            return "static"
+            # the harness uses its compiled tables; the model gets the same tables as text
+            ports = static_macro_ports()
+            def item(n, m):
+                fid = "sub" if n.endswith("/") else ("subp" if n.endswith(":") and "::" not in n else "x")
+                return "p,%s,%s,%s" % (fid, hx(n), hx(m))
+            l0 = ";".join(item(n, m) for n, m in ports[:15])
+            l1 = ";".join(item(n, m) for n, m in ports[15:])
+            return "static@" + l0 + "|" + l1 + "|"
         out = []
         for lv in self.levels:
             items = []
